@@ -31,6 +31,35 @@ def check(ctx):
   when_all(ctx)
   continue_with(ctx)
   unwrap(ctx)
+  primitives(ctx)
+
+
+_GEVENT_PRIMITIVES = ('set', 'set_exception', 'get', 'get_nowait', 'wait', 'ready', 'successful', 'rawlink', 'unlink', 'link', 'value', 'exception', 'exc_info',
+                      '__call__', '_notify_links', '_raise_exception')
+
+
+def primitives(ctx):
+  """The combinators report success and failure through gevent's own set / set_exception and read them back through value / exception: the package's
+  AsyncResult class hands them on unchanged (it overrides none of them, except by pure delegation)."""
+  prog = ctx.prog
+  c = prog.cls(A, 'AsyncResult')
+  why = ('WhenAny/WhenAll/ContinueWith/Unwrap/Map deliver "the failure" by calling set_exception with the very exception object they observed and read it back through '
+         '.exception: an override that converts, wraps or filters what it is given changes the failure every combinator reports')
+  for k in prog.mro(c):
+    for nm, m in sorted(k.methods.items()):
+      if nm not in _GEVENT_PRIMITIVES:
+        continue
+      body = [st for st in m.node.body if not (isinstance(st, ast.Expr) and isinstance(st.value, ast.Constant))]
+      ps = m.params[1:]
+      deleg = False
+      if len(body) == 1 and isinstance(body[0], (ast.Return, ast.Expr)) and isinstance(body[0].value, ast.Call):
+        cl = body[0].value
+        fn = U(cl.func).replace(' ', '')
+        deleg = (fn.startswith('super(') and fn.endswith(').' + nm) and [U(a) for a in cl.args] + [U(kw.value) for kw in cl.keywords] == ps) or \
+                (fn.endswith('.' + nm) and [U(a) for a in cl.args][1:] + [U(kw.value) for kw in cl.keywords] == ps and [U(a) for a in cl.args][:1] == ['self'])
+      ctx.ob('C17.R4', m, 'gevent primitive %s is inherited unchanged' % nm, deleg, '%s overrides gevent.event.AsyncResult.%s' % (k.name, nm), why)
+  ctx.ob('C17.R4', c, 'AsyncResult derives from gevent.event.AsyncResult', any('AsyncResult' in U(b) for b in c.node.bases), 'bases are %s' % [U(b) for b in c.node.bases], why,
+         nontrivial=False)
 
 
 def _ret_name(f):
